@@ -105,12 +105,14 @@ fn parse_args() -> Args {
 fn budget(id: &str, tier: &str) -> (u64, usize, f64) {
     let thorough = tier == "thorough";
     match (id, thorough) {
-        ("C19", false) => (1_200, 6, 150.0),
-        ("C19", true) => (12_000, 24, 1500.0),
-        ("C20", false) => (7_000, 0, 150.0),
-        ("C20", true) => (90_000, 0, 1500.0),
-        (_, false) => (7_000, 0, 150.0),
-        (_, true) => (90_000, 0, 1500.0),
+        ("C19", false) => (2_400, 6, 200.0),
+        ("C19", true) => (20_000, 24, 2400.0),
+        ("C14", false) => (9_000, 0, 200.0),
+        ("C14", true) => (150_000, 0, 2400.0),
+        ("C20", false) => (16_000, 0, 200.0),
+        ("C20", true) => (250_000, 0, 2400.0),
+        (_, false) => (14_000, 0, 200.0),
+        (_, true) => (250_000, 0, 2400.0),
     }
 }
 
@@ -242,14 +244,48 @@ fn cmd_check(args: &Args) -> i32 {
     let mut exit = 0;
     let mut n_viol = 0;
     let mut known_hits: BTreeMap<String, String> = BTreeMap::new();
+    // listed findings are first replayed on their recorded inputs
+    for k in known.iter().filter(|k| k.property == id && k.status == "open") {
+        if let Some(rp) = &k.replay {
+            let path = verif_dir().join(rp);
+            let scratch = Scratch::new("known");
+            match std::fs::read_to_string(&path).ok().and_then(|t| serde_json::from_str::<minimise::ReplayFile>(&t).ok()) {
+                None => {
+                    eprintln!("HARNESS: known finding replay {} missing or unreadable", path.display());
+                    return 2;
+                }
+                Some(rf) => match minimise::evaluate(&bin, &scratch, id, &rf.cases) {
+                    Err(e) => {
+                        eprintln!("HARNESS: known finding replay {}: {e}", path.display());
+                        return 2;
+                    }
+                    Ok((vs, _)) => {
+                        if let Some(v) = vs.iter().find(|v| v.class.contains(&k.class)) {
+                            known_hits.insert(k.class.clone(), format!("{} [replayed {}: {}]", k.what, rp, v.detail));
+                        } else {
+                            println!("note: listed finding {} no longer reproduces on its recorded input {}", k.class, rp);
+                        }
+                    }
+                },
+            }
+        }
+    }
+    let write_known = std::env::var("DRIVER_WRITE_KNOWN").is_ok();
     for f in found.iter() {
         if let Some(k) = known.iter().find(|k| k.property == id && k.status == "open" && f.v.class.contains(&k.class)) {
             known_hits.entry(k.class.clone()).or_insert_with(|| format!("{} (e.g. case {}: {})", k.what, f.case_index, f.v.detail));
+            if write_known {
+                let scratch = Scratch::new("minimise");
+                match minimise::minimise_and_write(&bin, &scratch, id, f, &verif_dir(), "known") {
+                    Ok(p) => println!("recorded input for {} -> {}", f.v.class, p.display()),
+                    Err(e) => eprintln!("could not record {}: {e}", f.v.class),
+                }
+            }
             continue;
         }
         // minimise, write the replay file, confirm it in a fresh run, report
         let scratch = Scratch::new("minimise");
-        match minimise::minimise_and_write(&bin, &scratch, id, f, &verif_dir()) {
+        match minimise::minimise_and_write(&bin, &scratch, id, f, &verif_dir(), "replays") {
             Ok(path) => {
                 println!("VIOLATION property={} replay={}", id, path.display());
                 println!("  class: {}", f.v.class);
